@@ -38,7 +38,7 @@ func (c19) Extra() map[string]any {
 	return e
 }
 
-var c19Labels = []float64{0, 1, 2, 3, 0.5, 1.5, -1, 7, 1e6, -0.25, math.Copysign(0, -1), 1e300, -1e300, 1e-200, math.NaN(), math.Inf(1), math.Inf(-1)}
+var c19Labels = []float64{0, 1, 2, 3, 0.5, 1.5, -1, 7, 1e6, -0.25, -100, 255, math.Copysign(0, -1), 1e300, -1e300, 1e-200, math.NaN(), math.Inf(1), math.Inf(-1)}
 
 var c19Bad = []string{"nil-yp", "nil-yt", "nil-both", "rank0", "rank2", "len-mismatch", "rank-mixed", "same-rank2", "same-rank0"}
 
@@ -53,6 +53,15 @@ func c19Batch(r *sim.Rand) int {
 	default:
 		return r.Range(65, 300)
 	}
+}
+
+type model struct{ total, correct int }
+
+type fork19 struct {
+	m   *metrics.Accuracy
+	mod model
+	c   int
+	at  int
 }
 
 func (c19) Generate(r *sim.Rand, tier string) *sim.Scenario {
@@ -121,6 +130,10 @@ func (c19) Generate(r *sim.Rand, tier string) *sim.Scenario {
 				st.F = append(st.F, c19enc(c19Labels[r.Intn(nlabels)]))
 			}
 			sc.Steps = append(sc.Steps, st)
+		case r.Bool(0.03):
+			// the metric value is copied (plain Go): the copy is a snapshot that later
+			// calls on the original must not reach
+			sc.Steps = append(sc.Steps, sim.Step{C: c, Op: "fork", Out: -1})
 		case r.Bool(0.12):
 			sc.Steps = append(sc.Steps, sim.Step{C: c, Op: "again", Out: -1})
 		case r.Bool(0.25):
@@ -129,6 +142,9 @@ func (c19) Generate(r *sim.Rand, tier string) *sim.Scenario {
 			n := c19Batch(r)
 			if long && r.Bool(0.8) {
 				n = r.Range(120, 300)
+			}
+			if r.Bool(0.0006) {
+				n = r.Range(33000, 70000) // one very long batch
 			}
 			st := sim.Step{C: c, Op: "acc", N: n, B: r.Bool(0.3), Out: -1}
 			yp := make([]float64, n)
@@ -261,9 +277,9 @@ func (c19) execOne(sc *sim.Scenario) *sim.Outcome {
 	if ninst < 1 {
 		ninst = 1
 	}
-	type model struct{ total, correct int }
 	inst := make([]*metrics.Accuracy, ninst)
 	mod := make([]model, ninst)
+	var forks []fork19
 	allP := make([][]float64, ninst)
 	allT := make([][]float64, ninst)
 	batches := make([][]int, ninst)
@@ -348,6 +364,10 @@ func (c19) execOne(sc *sim.Scenario) *sim.Outcome {
 			if sc.Cfg["sparse"] != 1 && !checkResult(c, where) {
 				return finish(out, lh, sig, start)
 			}
+		case "fork":
+			cp := *inst[c]
+			forks = append(forks, fork19{&cp, mod[c], c, si})
+			out.Faults["metric-copied-by-value"]++
 		case "again":
 			// the very same tensor objects of this instance's previous call are submitted once more
 			lc := last[c]
@@ -436,6 +456,17 @@ func (c19) execOne(sc *sim.Scenario) *sim.Outcome {
 			if accepted[c] > 0 {
 				pendingReject[c] = true
 			}
+		}
+	}
+	for _, f := range forks {
+		got, err := f.m.Result()
+		want := 0.0
+		if f.mod.total > 0 {
+			want = float64(f.mod.correct) / float64(f.mod.total)
+		}
+		if err != nil || got != want {
+			out.Fail("copy-follows-original", "the by-value copy of instance %d taken at step %d reports Result()=%v (%v) at the end of the history; it held %d/%d=%v when it was taken and nothing was accumulated on it since", f.c, f.at, got, err, f.mod.correct, f.mod.total, want)
+			return finish(out, lh, sig, start)
 		}
 	}
 	for c := 0; c < ninst; c++ {
